@@ -639,6 +639,8 @@ pub fn get_value(
             let len = match &function_args.get(1) {
                 Some(len) => match len.parse::<usize>() {
                     Ok(len) => Some(len),
+                    // a length too large to count is, like any length beyond the end, the rest of the string
+                    _ if !len.is_empty() && len.chars().all(|c| c.is_ascii_digit()) => None,
                     _ => return Variant::empty(VariantType::String),
                 },
                 _ => None,
